@@ -299,3 +299,12 @@ Proof. unfold listing. apply listing_rows_equations. apply unrolled_prog_wf_link
 Theorem program_table_unique env p c tm' : length tm' = length (run_prog env p) ->
   node_eqs env c (run_prog env p) tm' -> tm' = node_times env c (run_prog env p).
 Proof. apply node_times_unique, wf_node_links_hs, run_prog_wf_node_links. Qed.
+
+(* ------------------------------------------------------------------ ties to the source through the translator *)
+(* the model's relation equations are RelationLink.get_start_time as translated from the source, and the model's tie-break for
+   multi-links (first of the latest-ending: strict >) is the comparison the source uses *)
+From Gen Require Flags.
+Lemma start_from_is_source : forall t rs re d, start_from t rs re d = start_from_source t rs re d.
+Proof. intros [] rs re d; reflexivity. Qed.
+Lemma multi_reference_is_strict : Flags.multi_reference_strict = true.
+Proof. reflexivity. Qed.
